@@ -32,6 +32,9 @@ type Rand interface {
 
 var Registry = map[string]Prop{}
 
+// Referees compare the simulated kernel with the real one (thorough tier); keyed by family.
+var Referees = map[string]func(r Rand, n int, emit func(map[string]interface{})){}
+
 func Register(name string, p Prop) { Registry[name] = p }
 
 type Writer struct {
